@@ -15,7 +15,7 @@ RULE = ('corpus, special and small symmetric molecules x re-descriptions (new nu
         'molecule with a ring or a repeated fragment, distinct by (canonical string, parameters)')
 ASSUMPTIONS = ['CachedMethods compatibility shim', 'PYTHONHASHSEED is irrelevant: only tuples of ints are hashed']
 CONFIG = {
-    'quick': {'shards': 16, 'budget_s': 150, 'n_mols': 900, 'n_params': 5, 'k_renum': 2,
+    'quick': {'shards': 16, 'budget_s': 300, 'n_mols': 900, 'n_params': 5, 'k_renum': 2,
               'floors': {'evaluations': 15000, 'distinct_nontrivial': 3000, 'linear.compared': 4000, 'morgan.compared': 4000,
                          'folding.compared': 6000, 'renumbered.compared': 1200, 'dicts.compared': 800, 'history.steps': 1200}},
     'thorough': {'shards': 16, 'budget_s': 1800, 'n_mols': 4200, 'n_params': 40, 'k_renum': 10,
